@@ -18,6 +18,7 @@ import (
 	"net"
 	"net/textproto"
 	"sort"
+	"strconv"
 	"strings"
 	"testing"
 	"time"
@@ -58,6 +59,9 @@ type snap struct {
 	HeadersAfter [][2]string `json:"headers_after_body"`
 	Cookies      [][2]string `json:"cookies"`
 	Query        [][2]string `json:"query"`
+	QueryPeek    [][2]string `json:"query_peek"` // (key, QueryArgs().Peek(key)) for every key listed by All()
+	PostPeek     [][2]string `json:"post_peek"`
+	FormValues   [][2]string `json:"form_values"` // (key, ctx.FormValue(key)) for the query and post keys
 	Post         [][2]string `json:"post"`
 	MForm        [][2]string `json:"multipart"`
 	MFiles       int         `json:"multipart_files"`
@@ -147,6 +151,10 @@ func (w *world) handle(ctx *fasthttp.RequestCtx) {
 	sn.Headers = kvs(ctx.Request.Header.All())
 	sn.Cookies = kvs(ctx.Request.Header.Cookies())
 	sn.Query = kvs(ctx.QueryArgs().All())
+	sn.QueryPeek = [][2]string{}
+	ctx.QueryArgs().VisitAll(func(k, _ []byte) {
+		sn.QueryPeek = append(sn.QueryPeek, [2]string{string(k), string(ctx.QueryArgs().Peek(string(k)))})
+	})
 	sn.ConnReqNum = ctx.ConnRequestNum()
 	sn.Hijacked = ctx.Hijacked()
 	sn.UserValues = []string{}
@@ -234,6 +242,15 @@ func (w *world) handle(ctx *fasthttp.RequestCtx) {
 	}
 	// (PostArgs parses the body only for a form content type, which only the form kind carries)
 	sn.Post = kvs(ctx.PostArgs().All())
+	sn.PostPeek, sn.FormValues = [][2]string{}, [][2]string{}
+	ctx.PostArgs().VisitAll(func(k, _ []byte) {
+		sn.PostPeek = append(sn.PostPeek, [2]string{string(k), string(ctx.PostArgs().PeekBytes(k))})
+	})
+	if kind != "multipart" { // (FormValue would go through the multipart form there)
+		for _, kv := range append(append([][2]string{}, sn.Query...), sn.Post...) {
+			sn.FormValues = append(sn.FormValues, [2]string{kv[0], string(ctx.FormValue(kv[0]))})
+		}
+	}
 	sn.HeadersAfter = kvs(ctx.Request.Header.All())
 
 	// ---- mutate every part
@@ -352,7 +369,7 @@ func newWorld(conf srvConf) *world {
 	w.s = &fasthttp.Server{
 		ReduceMemoryUsage:  conf.RMU,
 		StreamRequestBody:  conf.Stream,
-		MaxRequestBodySize: 1 << 20,
+		MaxRequestBodySize: conf.defaultLimit(),
 		Logger:             nopLogger{},
 		Handler:            w.handle,
 		ConnState: func(c net.Conn, st fasthttp.ConnState) {
@@ -360,6 +377,15 @@ func newWorld(conf srvConf) *world {
 				w.cur.state = st
 			}
 		},
+	}
+	if conf.HdrRecv {
+		w.s.HeaderReceived = func(h *fasthttp.RequestHeader) fasthttp.RequestConfig {
+			if v := h.Peek("X-Limit"); len(v) > 0 {
+				n, _ := strconv.Atoi(string(v))
+				return fasthttp.RequestConfig{MaxRequestBodySize: n}
+			}
+			return fasthttp.RequestConfig{}
+		}
 	}
 	switch conf.Expect {
 	case "continue":
@@ -487,8 +513,25 @@ func checkAgainstReference(sn *snap, m *msgSpec) []string {
 	if hv := ref.Get("Host"); len(hv) != 1 || sn.Host != hv[0] {
 		diff("host", sn.Host, fmt.Sprint(hv))
 	}
-	if want := splitPairs(qs, "&"); !eqPairs(sn.Query, want) {
-		diff("query args", fmt.Sprint(sn.Query), fmt.Sprint(want))
+	wantQ := splitPairs(qs, "&")
+	if !eqPairs(sn.Query, wantQ) {
+		diff("query args", fmt.Sprint(sn.Query), fmt.Sprint(wantQ))
+	}
+	first := func(l [][2]string, k string) (string, bool) {
+		for _, kv := range l {
+			if kv[0] == k {
+				return kv[1], true
+			}
+		}
+		return "", false
+	}
+	var wantQP [][2]string = [][2]string{}
+	for _, kv := range wantQ {
+		v, _ := first(wantQ, kv[0])
+		wantQP = append(wantQP, [2]string{kv[0], v})
+	}
+	if !eqPairs(sn.QueryPeek, wantQP) {
+		diff("QueryArgs().Peek", fmt.Sprint(sn.QueryPeek), fmt.Sprint(wantQP))
 	}
 	// header fields as a multiset (fasthttp lists special fields first by design); framing fields are
 	// re-represented by fasthttp and are compared through the body instead.
@@ -542,6 +585,27 @@ func checkAgainstReference(sn *snap, m *msgSpec) []string {
 	}
 	if !eqPairs(sn.Post, wantPost) {
 		diff("post args", fmt.Sprint(sn.Post), fmt.Sprint(wantPost))
+	}
+	var wantPP, wantFV [][2]string = [][2]string{}, [][2]string{}
+	for _, kv := range wantPost {
+		v, _ := first(wantPost, kv[0])
+		wantPP = append(wantPP, [2]string{kv[0], v})
+	}
+	if !eqPairs(sn.PostPeek, wantPP) {
+		diff("PostArgs().Peek", fmt.Sprint(sn.PostPeek), fmt.Sprint(wantPP))
+	}
+	if m.Kind != "multipart" {
+		// FormValue: the first non-empty value of the key in the query, else in the post args
+		for _, kv := range append(append([][2]string{}, wantQ...), wantPost...) {
+			v, _ := first(wantQ, kv[0])
+			if v == "" { // (documented: an empty query value falls through to the post args)
+				v, _ = first(wantPost, kv[0])
+			}
+			wantFV = append(wantFV, [2]string{kv[0], v})
+		}
+		if !eqPairs(sn.FormValues, wantFV) {
+			diff("FormValue", fmt.Sprint(sn.FormValues), fmt.Sprint(wantFV))
+		}
 	}
 	if m.Kind == "multipart" {
 		want := append([][2]string{}, m.MForm...)
@@ -617,6 +681,16 @@ func optionIn(values []string, opt string) bool {
 	return false
 }
 
+// earlierLimitBelow: some earlier message of the connection carried an X-Limit smaller than n.
+func earlierLimitBelow(earlier []*msgSpec, n int) bool {
+	for _, e := range earlier {
+		if e.Limit > 0 && e.Limit < n {
+			return true
+		}
+	}
+	return false
+}
+
 type connVerdict struct {
 	anomalies  []anomaly
 	rejectAt   int // index of a message whose rejected expectation was answered 417 without Connection: close under ContinueHandler; -1
@@ -667,6 +741,10 @@ func judgeWire(conf srvConf, cr *connRun, ev map[string]int) connVerdict {
 		hasClose := optionIn(rsp.Get("Connection"), "close")
 		dispatch := m.Valid && m.Expect != "reject"
 		switch {
+		case m.OverLimit && called[m.Tag] > 0:
+			add(j, "request-config-sticks-to-connection", fmt.Sprintf("message %d (%s, body over its own limit: X-Limit=%d, server default %d) was dispatched to the handler; on a fresh connection it is rejected", j, m.Tag, m.Limit, conf.defaultLimit()))
+			v.judgedUpTo = j
+			return v
 		case !m.Valid && called[m.Tag] > 0:
 			// fasthttp accepted what this generator labels invalid: framing of the rest may differ; not judged here (C01/C09)
 			ev["skipped_lenient_accept"]++
@@ -677,6 +755,8 @@ func judgeWire(conf srvConf, cr *connRun, ev map[string]int) connVerdict {
 			if rsp.Status < 400 {
 				add(j, "invalid-request-answered-without-error", fmt.Sprintf("message %d (%s) was not dispatched but answered %d", j, m.Kind, rsp.Status))
 			}
+		case dispatch && called[m.Tag] == 0 && conf.HdrRecv && rsp.Status >= 400 && earlierLimitBelow(msgs[:j], len(m.ref.Body)):
+			add(j, "request-config-sticks-to-connection", fmt.Sprintf("message %d (%s %s, body within its own limit: X-Limit=%d, server default %d) was answered %d and never dispatched, after an earlier request of the connection had carried a smaller limit", j, m.Kind, m.Tag, m.Limit, conf.defaultLimit(), rsp.Status))
 		case dispatch && called[m.Tag] == 0:
 			add(j, "response-without-handler-call", fmt.Sprintf("message %d (%s %s) was answered (%d) but the handler was never called for it", j, m.Kind, m.Tag, rsp.Status))
 		case dispatch && called[m.Tag] > 1:
@@ -790,7 +870,7 @@ func classOfHistory(h *history) (string, bool) {
 		l = append(l, k)
 	}
 	sort.Strings(l)
-	return fmt.Sprintf("rmu=%v stream=%v expect=%s conns=%d %v", h.Conf.RMU, h.Conf.Stream, h.Conf.Expect, len(h.Conns), l), nmsg >= 3
+	return fmt.Sprintf("rmu=%v stream=%v expect=%s hdrrecv=%v conns=%d %v", h.Conf.RMU, h.Conf.Stream, h.Conf.Expect, h.Conf.HdrRecv, len(h.Conns), l), nmsg >= 3
 }
 
 func runHistory(r *mon.Run, i int, h *history) {
